@@ -437,9 +437,10 @@ func (w *World) altFamily(cls string, i int, d *PDeal) error {
 	sub := func(x, y kyber.Scalar) kyber.Scalar { return w.S.Scalar().Sub(x, y) }
 	mul := func(x, y kyber.Scalar) kyber.Scalar { return w.S.Scalar().Mul(x, y) }
 	switch cls {
-	case "altcoef": // last coefficient + G: f'(x) = f(x) + x^(T-1)
-		d.Commits[T-1] = w.S.Point().Add(d.Commits[T-1], w.S.Point().Base())
-		d.V = d.V.Add(d.V, w.xpow(i, T-1))
+	case "altcoef": // last coefficient + 2G: f'(x) = f(x) + 2 x^(T-1)   (deal kind badcommit uses + G)
+		two := w.S.Scalar().SetInt64(2)
+		d.Commits[T-1] = w.S.Point().Add(d.Commits[T-1], w.S.Point().Mul(two, nil))
+		d.V = d.V.Add(d.V, mul(two, w.xpow(i, T-1)))
 	case "altlong", "altlongt": // session's commitments plus one more coefficient: f'(x) = f(x) + x^T
 		d.Commits = append(d.Commits, w.S.Point().Base())
 		d.V = d.V.Add(d.V, w.xpow(i, T))
